@@ -615,6 +615,10 @@ pub fn decode_body(ver: Ver, first: u8, body: &[u8]) -> Result<Pkt, DecErr> {
                 return mal(Mal::Other, "connack reserved flags");
             }
             let code = r.u8()?;
+            if !v5 && !RC_V3_CONNACK.contains(&code) {
+                // 3.1.1 return codes 6-255 are "reserved for future use": not demanded to be rejected
+                return mal(Mal::Other, "reserved v3 connack return code");
+            }
             let code = check_rc(if v5 { RC_CONNACK } else { RC_V3_CONNACK }, code)?;
             let props = if v5 { r.props(Ctx::ConnAck)? } else { Vec::new() };
             Pkt::ConnAck { session_present: af & 1 != 0, code, props }
